@@ -392,7 +392,7 @@ func build(tier string) ([]runner.Instance, time.Duration) {
 							name := fmt.Sprintf("%s/par=%v,w=%d,buf=%d/pubs=%d,msgs=%d/%s", be.name, par, w, buf, shape[0], shape[1], mode)
 							ib := bound
 							if shape == [2]int{1, 3} {
-								if mode != "static" || (be.name == "deque" && tier != "thorough") {
+								if mode != "static" || (be.name != "queue" && tier != "thorough") {
 									continue
 								}
 								ib = bound + 1 // subscriber delayed AND the later overflow sender first
@@ -437,7 +437,7 @@ func build(tier string) ([]runner.Instance, time.Duration) {
 					continue
 				}
 				cb := bound
-				if c.nsubs == 3 && len(c.actions) == 1 && !par && be.lossless && (be.name != "deque" || tier == "thorough") {
+				if c.nsubs == 3 && len(c.actions) == 1 && !par && be.lossless && (be.name == "queue" || tier == "thorough") {
 					// an Unsubscribe landing while a dispatch is parked on a subscriber
 					// that is not receiving yet needs two deviations
 					cb = bound + 1
